@@ -41,7 +41,7 @@ func C07(ctx *core.Ctx) int {
 	progs := replayFilter(ctx, c07Programs(ctx))
 	cases := buildCases(ctx, progs, 1)
 	langs := devLangs()
-	runCodec(ctx, cases, langs)
+	langs = runCodec(ctx, cases, langs)
 	st := newCodecStats()
 	matrix := map[string]map[string]int{} // construct class -> lang -> outcome counts
 	note := func(pc *ProgCase, lang, outcome string) {
